@@ -6,7 +6,7 @@
     The complete-session step is not an assumption any more: [C04_real_swarm_converges] is the
     convergence theorem for the swarm whose replicas are sorted lists, whose writes go through the
     ordered-map insert and whose sessions are runs of the reconciliation protocol itself
-    ([list_session], split factor 2) — proved by showing that swarm set-equal, replica by replica
+    ([list_session], any split factor >= 2, any maximal set size) — proved by showing that swarm set-equal, replica by replica
     and step by step, to the abstract one (C01's theorem at every [ESync]). *)
 From ID Require Import Base.Bytes Model.Entry Model.Put Model.Ranger Proofs.SwarmFacts Proofs.RealSwarm.
 
@@ -40,12 +40,12 @@ Proof. exact swarm_converges. Qed.
 (** the same with real sessions: after any history of writes, deliveries (lost, duplicated,
     reordered) and protocol sessions, a closing list of protocol sessions through which replica
     [k] hears of everybody leaves it with exactly the merge of all accepted writes *)
-Theorem C04_real_swarm_converges : forall mss v U, consistent U -> (forall e, In e U -> v e MISSING = true) ->
+Theorem C04_real_swarm_converges : forall mss kf v, 2 <= kf -> forall U, consistent U -> (forall e, In e U -> v e MISSING = true) ->
   forall n evs pairs,
     writes_in U evs -> legal [] (repeat [] n) evs ->
     Forall (fun p => fst p < n /\ snd p < n)%nat pairs ->
-    let st1 := rrun mss v (@pair swarm (list entry) (repeat [] n) []) evs in
-    let st2 := rrun mss v st1 (map (fun p => ESync (fst p) (snd p)) pairs) in
+    let st1 := rrun mss kf v (@pair swarm (list entry) (repeat [] n) []) evs in
+    let st2 := rrun mss kf v st1 (map (fun p => ESync (fst p) (snd p)) pairs) in
     forall k, (k < n)%nat -> (forall q, (q < n)%nat -> In q (fold_left kstep pairs kinit k)) ->
     forall x, In x (sget (fst st2) k) <-> in_reduce (snd st1) x.
 Proof. exact real_swarm_converges. Qed.
@@ -57,8 +57,8 @@ Example C04_real_swarm_example :
   let w3 := mkE 1 3 [99] 5 1 8 in let w4 := mkE 1 3 [99] 7 1 9 in
   let evs := [EWrite 0 w1; EWrite 1 w3; EPut 2 w1; EPut 2 w1; ESync 0 1; EWrite 2 w2; EWrite 0 w4]%nat in
   let pairs := [(2, 1); (1, 0); (0, 1); (1, 2)]%nat in
-  let st1 := rrun 1 (fun _ _ => true) (@pair swarm (list entry) (repeat [] 3) []) evs in
-  let st2 := rrun 1 (fun _ _ => true) st1 (map (fun p => ESync (fst p) (snd p)) pairs) in
+  let st1 := rrun 1 3 (fun _ _ => true) (@pair swarm (list entry) (repeat [] 3) []) evs in
+  let st2 := rrun 1 3 (fun _ _ => true) st1 (map (fun p => ESync (fst p) (snd p)) pairs) in
   fst st2 = [[w2; w4]; [w2; w4]; [w2; w4]] /\ length (snd st1) = 4%nat.
 Proof. vm_compute. split; reflexivity. Qed.
 
